@@ -101,6 +101,32 @@ def discharge(vcs, timeout_ms=10000, procs=None):
     return out
 
 
+_PAR = {}
+
+
+def _case_chunk(task):
+    """Worker for contracts with many cases: generate and discharge the VCs of a chunk of cases
+    in this process; only verdicts travel back."""
+    global _VCS
+    key, cases, timeout_ms = task
+    contract = _PAR[key]
+    out = []
+    inl = set()
+    for case in cases:
+        try:
+            vcs, stats = vcs_for(contract, case)
+        except E.Unsupported as e:
+            return dict(unsupported='%s (case %s)' % (e, case))
+        inl |= set(stats['inlined'])
+        for v in vcs:
+            v.name = '%s%s:%s' % (contract.key_name, ('{%s}' % case) if case != '' else '', v.name)
+        _VCS = [(v.name, v.pc, v.goal, v.kind, timeout_ms) for v in vcs]
+        for i, v in enumerate(vcs):
+            (_, r, dt, model) = _solve(i)
+            out.append((v.name, v.kind, r, dt, model))
+    return dict(results=out, inlined=sorted(inl))
+
+
 def verify_contract(ctx, contract, timeout_ms=None):
     """Verify one contract: all cases.  Records obligations in ctx; returns summary dict."""
     timeout_ms = timeout_ms or (10000 if ctx.tier == 'quick' else 30000)
@@ -110,8 +136,11 @@ def verify_contract(ctx, contract, timeout_ms=None):
                    obligations=0)
     allv = []
     t0 = time.time()
+    cases = list(contract.cases())
+    if len(cases) > 24:
+        return _verify_parallel(ctx, contract, cases, timeout_ms, fn, shash, summary)
     try:
-        for case in contract.cases():
+        for case in cases:
             vcs, stats = vcs_for(contract, case)
             for v in vcs:
                 v.name = '%s%s:%s' % (contract.key_name, ('{%s}' % case) if case != '' else '', v.name)
@@ -142,6 +171,44 @@ def verify_contract(ctx, contract, timeout_ms=None):
             ctx.obligation(v.name, fn, 'undecided', 'z3', dt, shash, detail=r)
     summary['obligations'] = nobl
     summary['gen_s'] = gen_s
+    if nobl == 0:
+        summary['vacuous'].append('no obligations generated for %s' % fn)
+    return summary
+
+
+def _verify_parallel(ctx, contract, cases, timeout_ms, fn, shash, summary):
+    from elab.passcheck import pmap
+    t0 = time.time()
+    key = (contract.module, contract.key_name)
+    _PAR[key] = contract
+    nchunks = 64
+    chunks = [cases[i::nchunks] for i in range(nchunks)]
+    res = pmap(_case_chunk, [(key, ch, timeout_ms) for ch in chunks if ch])
+    nobl = 0
+    for r in res:
+        if 'unsupported' in r:
+            summary['unsupported'] = r['unsupported']
+            ctx.obligation(contract.qualname + ':symbolic-execution', fn, 'undecided', 'pyvc',
+                           time.time() - t0, shash, detail='unsupported construct: %s' % r['unsupported'])
+            summary['undecided'].append(contract.qualname + ':symbolic-execution')
+            return summary
+        ctx.inlined |= set(r['inlined'])
+        for (name, kind, verdict, dt, model) in r['results']:
+            if kind == 'cover':
+                if verdict == 'unsat':
+                    summary['vacuous'].append(name)
+                continue
+            nobl += 1
+            if verdict == 'unsat':
+                summary['proved'] += 1
+                ctx.obligation(name, fn, 'proved', 'z3', dt, shash)
+            elif verdict == 'sat':
+                summary['refuted'].append((name, model))
+            else:
+                summary['undecided'].append(name)
+                ctx.obligation(name, fn, 'undecided', 'z3', dt, shash, detail=verdict)
+    summary['obligations'] = nobl
+    summary['gen_s'] = time.time() - t0
     if nobl == 0:
         summary['vacuous'].append('no obligations generated for %s' % fn)
     return summary
